@@ -37,7 +37,7 @@ def run(rep, tier, seed):
     try:
         if tier == 'quick':
             chk.check('chk', gen_consts(2, 2), invariants=INVS)
-            chk.generate('gen', gen_consts(1, 2), cassettes=('memory',), n_conc=1, sample=2500, cap=4500)
+            chk.generate('gen', gen_consts(1, 2), cassettes=('memory',), n_conc=1, sample=12000, cap=18000)
             chk.generate('failthen', gen_consts(1, 3, MaxPSteps=2, InCalls=[('ia1', 1), ('ia1', 2)], InFaults=['none'],
                                                 Bodies=['plain'], Ctl=[], Classes=[K('K1')], SaveFails=[False],
                                                 Ends=['ret'], Modes=['free'], PlayFaults=[], Draws=['low'],
